@@ -157,6 +157,7 @@ type Hist struct {
 	Panics []string
 	Ops    int
 	FFH    map[uint64]bool // heights at which frozen funds may exist
+	OrdBy  map[types.Address]int // orders owned (committed + created in the current block)
 	begun  bool            // BeginBlock of N.Height has run and the block is not committed yet
 	TmSet  map[types.Pubkey]bool            // Tendermint's validator set (pubkeys) at the last begun height
 	TmPend map[uint64][]abci.ValidatorUpdate // updates taking effect at height
@@ -239,6 +240,12 @@ func (h *Hist) sendFull(op string) {
 	h.N.nextOrder = uint32(st.NextOrderID)
 	for _, f := range st.FrozenFunds {
 		h.FFH[f.Height] = true
+	}
+	h.OrdBy = map[types.Address]int{}
+	for _, p := range st.Pools {
+		for _, o := range p.Orders {
+			h.OrdBy[o.Owner]++
+		}
 	}
 	d := DumpState(&st)
 	h.appExtras(d)
@@ -481,22 +488,43 @@ func (h *Hist) Block() bool {
 	}
 	var byz []types.TmAddress
 	var bparts []string
-	// evidence aimed at validators that have unbonding / moving funds maturing now or next block
+	// evidence aimed at validators that have unbonding / moving funds maturing exactly now (high priority),
+	// next block, or at the far end of the punishment window
 	if h.O.ByzPct > 0 && len(votes) > 0 {
-		for k, v := range h.View {
-			f := strings.Fields(k)
-			if len(f) == 3 && f[0] == "ff" && (f[1] == fmt.Sprint(height) || f[1] == fmt.Sprint(height+1) || f[1] == fmt.Sprint(height-1+types.GetUnbondPeriod())) {
-				vf := strings.Fields(v)
-				if len(vf) == 6 && vf[1] != "-" && h.W.Rng.Intn(100) < 25 {
-					var pk types.Pubkey
-					fmt.Sscanf(vf[1], "%x", &pk)
-					a := tmAddrOf(pk)
-					if len(byz) == 0 {
-						byz = append(byz, a)
-						bparts = append(bparts, fmt.Sprintf("%x", a[:]))
-					}
-				}
+		var now, near []types.TmAddress
+		keys := make([]string, 0, len(h.View))
+		for k := range h.View {
+			if strings.HasPrefix(k, "ff ") {
+				keys = append(keys, k)
 			}
+		}
+		sort.Strings(keys)
+		for _, k := range keys {
+			f := strings.Fields(k)
+			vf := strings.Fields(h.View[k])
+			if len(f) != 3 || len(vf) != 6 || vf[1] == "-" {
+				continue
+			}
+			var pk types.Pubkey
+			fmt.Sscanf(vf[1], "%x", &pk)
+			if !h.PrevSet[pk] && !h.TmSet[pk] {
+				continue
+			}
+			if f[1] == fmt.Sprint(height) {
+				now = append(now, tmAddrOf(pk))
+			} else if f[1] == fmt.Sprint(height+1) || f[1] == fmt.Sprint(height+types.GetUnbondPeriod()) || f[1] == fmt.Sprint(height+types.GetUnbondPeriod()+1) {
+				near = append(near, tmAddrOf(pk))
+			}
+		}
+		var a *types.TmAddress
+		if len(now) > 0 && h.W.Rng.Intn(100) < 60 {
+			a = &now[h.W.Rng.Intn(len(now))]
+		} else if len(near) > 0 && h.W.Rng.Intn(100) < 20 {
+			a = &near[h.W.Rng.Intn(len(near))]
+		}
+		if a != nil {
+			byz = append(byz, *a)
+			bparts = append(bparts, fmt.Sprintf("%x", a[:]))
 		}
 	}
 	if len(byz) == 0 && h.O.ByzPct > 0 && h.W.Rng.Intn(100) < h.O.ByzPct && len(votes) > 0 {
@@ -560,7 +588,10 @@ func (h *Hist) Block() bool {
 		if len(h.G.Recent) > 50 {
 			h.G.Recent = h.G.Recent[1:]
 		}
-		h.S.Op(txLine(g, r.Code, tags))
+		h.S.Op(txLine(g, r.Code, tags) + fmt.Sprintf(" x.selforders=%d", h.OrdBy[g.Sender]))
+		if r.Code == 0 && g.Type == tx.TypeAddLimitOrder {
+			h.OrdBy[g.Sender]++
+		}
 		h.sendLive("S tx")
 	}
 	er, ep := n.End(height)
